@@ -208,7 +208,9 @@ class Ops:
                 ctx.assume(z3.ForAll([i, j], z3.Implies(z3.And(0 <= i, i < j, j < keys.n),
                                                         z3.Select(keys.arr, i) != z3.Select(keys.arr, j))))
             vals = sym(z3.ArraySort(kt.sort, vt.sort), f"{name}.vals")
-            return DictV(keys=keys, vals=vals, vt=vt)
+            result = DictV(keys=keys, vals=vals, vt=vt)
+            result.total = bool(getattr(desc, "total", False))
+            return result
         if isinstance(desc, dsl.SeqOf):
             et = self.elem_type(desc.elem)
             arr = sym(z3.ArraySort(z3.IntSort(), et.sort), f"{name}[]")
@@ -335,7 +337,14 @@ class Ops:
         if isinstance(a, SeqV) or isinstance(b, SeqV):
             raise Unsupported("== on symbolic sequences")
         if isinstance(a, SetV) and isinstance(b, SetV):
-            raise Unsupported("== on sets")
+            if a.arr is not None and b.arr is not None:
+                return a.arr == b.arr
+            if a.items is not None and b.items is not None:
+                sub_ab = [self.or_([self.not_(c), self.contains(b, x)]) for x, c in a.items]
+                sub_ba = [self.or_([self.not_(c), self.contains(a, x)]) for x, c in b.items]
+                return self.and_(sub_ab + sub_ba)
+            et = a.et or b.et
+            return self.set_to_array(a, et) == self.set_to_array(b, et)
         if type(a) is not type(b):
             return False
         raise Unsupported(f"== on {a!r} and {b!r}")
@@ -426,7 +435,9 @@ class Ops:
                 and set(a.fields) == set(b.fields):
             return ObjV(a.cls, {k: self.ite(cond, a.fields[k], b.fields[k]) for k in a.fields})
         if isinstance(a, SeqV) and isinstance(b, SeqV) and a.et is b.et:
-            return SeqV(z3.If(cond, a.arr, b.arr), z3.If(cond, a.n, b.n), a.et)
+            if not (isinstance(a.off, int) and isinstance(b.off, int) and a.off == b.off):
+                raise Unsupported('merge of sequence views')
+            return SeqV(z3.If(cond, a.arr, b.arr), z3.If(cond, a.n, b.n), a.et, a.off)
         if isinstance(a, SetV) and isinstance(b, SetV) and a.arr is not None and b.arr is not None:
             return SetV(arr=z3.If(cond, a.arr, b.arr), et=a.et)
         raise Unsupported(f"cannot merge {a!r} and {b!r}")
